@@ -349,6 +349,9 @@ func runProperty(w *World, res *checkResult, thorough bool, timeoutMs int) {
 		res.Lemmas++
 	}
 	all = append(all, w.writersObligations(p)...)
+	if p == "C20" {
+		all = append(all, w.locksetObligations()...)
+	}
 	w.solve(all, timeoutMs, thorough, &res.Stats)
 	// group by name
 	groups := map[string]*oblGroup{}
